@@ -95,6 +95,8 @@ func RunConfig(behs [][]Step, tr *Trace, env Env, sum *Summary) {
 		runConfigShell(tr, env, sum)
 		return
 	}
+	_, cc, argvLog, back := cfgStubRoot(env)
+	defer back()
 	for bi, beh := range behs {
 		cell := beh[0]
 		o := cell["opt"].(map[string]any)
@@ -106,6 +108,7 @@ func RunConfig(behs [][]Step, tr *Trace, env Env, sum *Summary) {
 		lt, lc := cfgListener(l)
 		b.SetListener(lt, lc)
 		b.SetFormat(builder.FILETYPE_WINDOWS_EXE)
+		var readBack func(blob []byte) map[string]any
 		patch := func() map[string]any {
 			var blob []byte
 			var err error
@@ -123,6 +126,17 @@ func RunConfig(behs [][]Step, tr *Trace, env Env, sum *Summary) {
 			}
 			res := map[string]any{"built": false, "o": []any{}, "l": []any{}}
 			if err == nil && pan == "" {
+				res = readBack(blob)
+				sum.Counters["built"]++
+			} else {
+				sum.Counters["refused"]++
+			}
+			return res
+		}
+		_ = patch
+		readBack = func(blob []byte) map[string]any {
+			res := map[string]any{"built": false, "o": []any{}, "l": []any{}}
+			{
 				smb := lt == handlers.LISTENER_PIVOT_SMB
 				c, rerr := refdemon.ReadConfig(blob, smb)
 				if rerr != nil || c.Left != 0 {
@@ -152,9 +166,6 @@ func RunConfig(behs [][]Step, tr *Trace, env Env, sum *Summary) {
 							"secure": c.Secure, "ua": c.UserAgent, "headers": strs(c.Headers), "uris": strs(c.Uris), "proxy": proxy}
 					}
 				}
-				sum.Counters["built"]++
-			} else {
-				sum.Counters["refused"]++
 			}
 			return res
 		}
@@ -169,6 +180,67 @@ func RunConfig(behs [][]Step, tr *Trace, env Env, sum *Summary) {
 		b.SetListener(lt, lc)
 		b.SetFormat(builder.FILETYPE_WINDOWS_EXE)
 		tr.Emit(map[string]any{"ev": "Again", "res": patch()})
+		// the whole build for one output format, with the stub tool chain: what is the compiler handed as CONFIG_BYTES?
+		format := []string{"exe", "svc", "dll", "shellcode"}[bi%4]
+		os.Remove(argvLog)
+		b = builder.NewBuilder(builder.BuilderConfig{Compiler64: cc, Compiler86: cc, Nasm: cc})
+		b.SetSilent(true)
+		b.SendConsoleMessage = func(string, string) {}
+		must(b.SetConfig(cfgOptions(o)))
+		b.SetListener(lt, lc)
+		arch, ext := builder.ARCHITECTURE_X64, ".exe"
+		if (bi/4)%2 == 1 {
+			arch = builder.ARCHITECTURE_X86
+		}
+		b.SetArch(arch)
+		switch format {
+		case "exe":
+			b.SetFormat(builder.FILETYPE_WINDOWS_EXE)
+		case "svc":
+			b.SetFormat(builder.FILETYPE_WINDOWS_SERVICE_EXE)
+		case "dll":
+			b.SetFormat(builder.FILETYPE_WINDOWS_DLL)
+			ext = ".dll"
+		case "shellcode":
+			b.SetFormat(builder.FILETYPE_WINDOWS_RAW_BINARY)
+			ext = ".bin"
+		}
+		b.SetExtension(ext)
+		okBuild, bpan := false, ""
+		func() {
+			defer func() {
+				if p := recover(); p != nil {
+					bpan = fmt.Sprintf("%v\n%s", p, debug.Stack())
+				}
+			}()
+			okBuild = b.Build()
+		}()
+		if bpan != "" {
+			sum.Incidents = append(sum.Incidents, Incident{Behaviour: bi, Kind: "panic", Site: "Build " + format, Detail: firstLines(bpan, 12)})
+		}
+		if b.CompileDir != "" && strings.HasPrefix(b.CompileDir, "/tmp/") {
+			os.RemoveAll(b.CompileDir)
+		}
+		built := map[string]any{"built": false, "o": []any{}, "l": []any{}}
+		if okBuild && bpan == "" {
+			built = map[string]any{"built": true, "o": map[string]any{"unreadable": "no CONFIG_BYTES define in the compiler's arguments"}, "l": map[string]any{"unreadable": true}}
+			argv, _ := os.ReadFile(argvLog)
+			for _, line := range strings.Split(string(argv), "\n") {
+				const pre = "ARG:-DCONFIG_BYTES={"
+				if strings.HasPrefix(line, pre) {
+					var blob []byte
+					for _, f := range strings.FieldsFunc(line[len(pre):], func(r rune) bool { return r == ',' || r == '\\' || r == '}' }) {
+						var v int
+						if _, err := fmt.Sscanf(f, "0x%02x", &v); err == nil {
+							blob = append(blob, byte(v))
+						}
+					}
+					built = readBack(blob)
+				}
+			}
+		}
+		tr.Emit(map[string]any{"ev": "Built", "fmt": format, "res": built})
+		sum.Counters["build."+format]++
 		if bi < 3 {
 			sum.Samples = append(sum.Samples, cell)
 		}
@@ -178,20 +250,29 @@ func RunConfig(behs [][]Step, tr *Trace, env Env, sum *Summary) {
 
 // runConfigShell builds service executables with stub tools that record their argv; any other
 // program started by the build shows up as a marker file.
-func runConfigShell(tr *Trace, env Env, sum *Summary) {
-	root := filepath.Join(env.Scratch, "ts")
+// cfgStubRoot lays out a teamserver directory with Demon source stubs, shellcode templates and a stub tool that stands for
+// compiler and assembler: it records its argv and creates its output file.  The process works inside that directory.
+func cfgStubRoot(env Env) (root, cc, argvLog string, back func()) {
+	root = filepath.Join(env.Scratch, "ts")
 	for _, d := range []string{"payloads/Demon/src/core", "payloads/Demon/src/crypt", "payloads/Demon/src/inject", "payloads/Demon/src/asm", "payloads/Demon/src/main", "payloads/Demon/include", "bin"} {
 		must(os.MkdirAll(filepath.Join(root, d), 0o755))
 	}
 	must(os.WriteFile(filepath.Join(root, "payloads/Demon/src/core/a.c"), []byte("int a;"), 0o644))
-	argvLog := filepath.Join(root, "argv.log")
+	must(os.WriteFile(filepath.Join(root, "payloads/Shellcode.x64.bin"), []byte("SC64"), 0o644))
+	must(os.WriteFile(filepath.Join(root, "payloads/Shellcode.x86.bin"), []byte("SC86"), 0o644))
+	argvLog = filepath.Join(root, "argv.log")
 	stub := "#!/bin/sh\nfor a in \"$@\"; do printf '%s\\n' \"ARG:$a\" >> " + argvLog + "; done\nprintf 'END\\n' >> " + argvLog + "\n" +
 		"out=\"\"; prev=\"\"; for a in \"$@\"; do if [ \"$prev\" = \"-o\" ]; then out=\"$a\"; fi; prev=\"$a\"; done; [ -n \"$out\" ] && : > \"$out\"\nexit 0\n"
-	cc := filepath.Join(root, "bin", "stubcc")
+	cc = filepath.Join(root, "bin", "stubcc")
 	must(os.WriteFile(cc, []byte(stub), 0o755))
 	cwd, _ := os.Getwd()
 	must(os.Chdir(root))
-	defer os.Chdir(cwd)
+	return root, cc, argvLog, func() { os.Chdir(cwd) }
+}
+
+func runConfigShell(tr *Trace, env Env, sum *Summary) {
+	root, cc, argvLog, back := cfgStubRoot(env)
+	defer back()
 	marker := filepath.Join(root, "MARKER")
 	names := map[string]string{
 		"plain": "UpdateSvc", "space": "Update Service 2", "dollar": "a$(touch " + marker + ")b", "backtick": "a`touch " + marker + "`b",
